@@ -533,9 +533,9 @@ def k4_ops(NS, opname, P, inplace, conform=True):
     elems = [good] if conform else ([good, bad] if P["b1"] else [bad, good])
     kind = pick(["keyed", "plain"], P["fk"] % 2 if False else (0 if P["b1"] else 1)) if False else ("keyed" if P["sel3"] % 2 == 0 else "plain")
     if opname.endswith("items") or opname == "ctor_items":
-        val = KeyedList(elems, key=lambda it: getattr(it, "k", it)) if kind == "keyed" else list(elems)
+        val = KeyedList(elems, key=lambda it: it.k if hasattr(it, "k") else "bad") if kind == "keyed" else list(elems)
     elif "bag" in opname and not opname.endswith("obj"):
-        val = KeyedSet(elems, key=lambda it: getattr(it, "k", repr(it))) if kind == "keyed" else list(elems)
+        val = KeyedSet(elems, key=lambda it: it.k if hasattr(it, "k") else "bad") if kind == "keyed" else list(elems)
     else:
         val = list(elems)
     if opname == "ctor_items":
